@@ -642,10 +642,13 @@ class _FuncAnalysis:
             return
         # size expressions are unsigned: a difference that can be negative wraps to a huge count
         if not nbytes.is_const() and not self.entails(st, nbytes):
-            self.oblige('write', node, text, False,
-                        'the size %s can be negative here, i.e. wraps around to a huge unsigned count (a bound that is '
-                        'computed as capacity - offset needs offset <= capacity on this path)' % nbytes)
-            return
+            # report the sign problem only if the capacity bound would hold for a non-negative size;
+            # otherwise the (more serious) missing upper bound is what is wrong
+            if any(self.entails(st, g, extra=[nbytes]) for g, why in goals):
+                self.oblige('write', node, text, False,
+                            'the size %s can be negative here, i.e. wraps around to a huge unsigned count (a bound that is '
+                            'computed as capacity - offset needs offset <= capacity on this path)' % nbytes)
+                return
         for g, why in goals:
             if self.entails(st, g):
                 self.oblige('write', node, text, True, '', how='%s: %s >= 0 entailed' % (why, g))
